@@ -89,6 +89,19 @@ theorem opndsOf_length (ops : List X86.Operand) : (opndsOf ops).length = ops.len
   have := congrArg List.length (opndsOf_p ops)
   simpa using this
 
+theorem opndsFromA64_p (i : Nat) (ops : List ParseA64.Operand) :
+    (opndsFromA64 i ops).map (·.p) = ops.map poperandA64 := by
+  induction ops generalizing i with
+  | nil => rfl
+  | cons o os ih => simp [opndsFromA64, opndA64, ih (i + 1)]
+
+theorem opndsA64_p (ops : List ParseA64.Operand) : (opndsA64 ops).map (·.p) = ops.map poperandA64 :=
+  opndsFromA64_p 0 ops
+
+theorem opndsA64_length (ops : List ParseA64.Operand) : (opndsA64 ops).length = ops.length := by
+  have := congrArg List.length (opndsA64_p ops)
+  simpa using this
+
 /-! ### load / store flags -/
 
 theorem semOpP_isMem (o : Isa.SemOp) : Compose.isMem (semOpP o) = Isa.isMem o := by
